@@ -314,20 +314,39 @@ class Explorer:
         return res
 
     def explore(self, world: World, alphabet, depth, check_mod, check_name="step_check", dedup=True,
-                budget_s=None, opts=None, determinism_depth=2, stats=None):
+                budget_s=None, opts=None, determinism_depth=2, stats=None, seed_depth=None):
         """BFS over histories up to `depth`. `alphabet(world, history)` -> list of next ops.
         Returns dict with counts and violations [(history, step, sig, detail)]."""
         opts = opts or {}
         t0 = time.time()
         seen = {}
-        frontier = [[]]
+        # the search starts from the empty project and from the world's non-initial seed states
+        frontier = [[]] + [[list(op) for op in pre] for pre in getattr(world, "prefixes", [])]
         res = {"states": 0, "transitions": 0, "histories": 0, "violations": [], "depth_done": 0, "capped": False,
                "outcomes": set(), "samples": [], "nondet": []}
+        # the seed histories themselves are judged at every step (nobody else does) and registered as seen
+        seeds = [h for h in frontier if h]
+        if seeds:
+            o = dict(opts)
+            o["all_steps"] = True
+            for history, key, viols, summ, dt in self.pool.map(_job, [(world, h, check_name, check_mod, o) for h in seeds]):
+                res["histories"] += 1
+                res["transitions"] += len(history)
+                seen[key] = history
+                for (i, sig, detail) in viols:
+                    res["violations"].append((history, i, sig, detail, summ))
+        if seed_depth is None:
+            seed_depth = depth
+        origin = {json.dumps(h): ("seed" if h else "root") for h in frontier}
         for d in range(1, depth + 1):
             jobs = []
             for h in frontier:
+                org = origin.get(json.dumps(h), "root")
+                if org == "seed" and d > seed_depth:
+                    continue   # states reached from the non-initial seeds are extended to a smaller depth
                 for op in alphabet(world, h):
                     jobs.append((world, h + [op], check_name, check_mod, opts))
+                    origin[json.dumps(h + [op])] = org
             if not jobs:
                 break
             if d <= determinism_depth:
